@@ -22,8 +22,19 @@ pub fn run(sh: &mut shell::Shell, cl: &CommandLine, cmd: &Command,
     let str_current_dir = tools::get_current_dir();
 
     let mut dir_to = if args.len() == 1 {
-        let home = tools::get_user_home();
-        home.to_string()
+        // like `cd "$HOME"`: the environment first, then a shell variable
+        let home = match env::var("HOME") {
+            Ok(x) => Some(x),
+            Err(_) => sh.get_env("HOME"),
+        };
+        match home {
+            Some(x) => x,
+            None => {
+                let info = "cicada: cd: HOME not set";
+                print_stderr_with_capture(info, &mut cr, cl, cmd, capture);
+                return cr;
+            }
+        }
     } else {
         args[1..].join("")
     };
